@@ -6,6 +6,8 @@ import (
 	"bytes"
 	"context"
 	"fmt"
+	"google.golang.org/protobuf/encoding/protodelim"
+	"google.golang.org/protobuf/proto"
 	"sort"
 	"strings"
 	"testing"
@@ -79,7 +81,7 @@ func c10Data(kind string) map[string]*pb.ReceiverDataValue {
 func c10Bytes(epoch time.Time, v c10Ver) []byte {
 	e := &pb.MeshEntry{Entry: &pb.Entry{Receiver: c10Keys[v.k].r, GroupKey: []byte(c10Keys[v.k].gk), Timestamp: timestamppb.New(epoch.Add(v.ts)),
 		FiringAlerts: []uint64{1, uint64(v.ts)}, ResolvedAlerts: []uint64{2}, ReceiverData: c10Data(v.data)}, ExpiresAt: timestamppb.New(epoch.Add(v.exp))}
-	b, err := marshalMeshEntry(e)
+	b, err := vMarshalEntry(e)
 	if err != nil {
 		panic(err)
 	}
@@ -90,6 +92,15 @@ type c10Ent struct {
 	ts, exp time.Time
 	data    string
 	firing  string
+}
+
+// vMarshalEntry encodes a gossip message the way a peer would, without going through the code under test.
+func vMarshalEntry(e *pb.MeshEntry) ([]byte, error) {
+	var buf bytes.Buffer
+	if _, err := protodelim.MarshalTo(&buf, proto.Clone(e).(*pb.MeshEntry)); err != nil {
+		return nil, err
+	}
+	return buf.Bytes(), nil
 }
 
 func c10DataStr(m map[string]*pb.ReceiverDataValue) string {
@@ -403,7 +414,7 @@ func c10Sched(t *testing.T, remoteNewer, expiredStart bool, prefix []int, expect
 		}
 		remote := &pb.MeshEntry{Entry: &pb.Entry{Receiver: c10Keys[0].r, GroupKey: []byte(c10Keys[0].gk), Timestamp: timestamppb.New(rts), FiringAlerts: []uint64{5}},
 			ExpiresAt: timestamppb.New(rts.Add(c10Ret))}
-		rb, _ := marshalMeshEntry(remote)
+		rb, _ := vMarshalEntry(remote)
 		var seen []time.Time
 		s.SetBranching(true)
 		ds := []chan struct{}{
